@@ -50,8 +50,9 @@ def make_rows(r, n, idkind):
     """N-form rows: two reference targets x, y first, then n rows drawn from the pools (each pool value used)."""
     def mkid(name):
         return ('ref', name, None) if idkind == 'ref' else ('str', name)
-    rows = [{'id': mkid('x'), 'a': NUM(5), 'b': ('str', 'm'), 'c': D.MARKER},
-            {'id': mkid('y'), 'a': NUM(6, 'kg'), 'b': ('str', 'z')}]
+    # the two reference targets also point at each other, so that the *last* segment of a path can be a reference
+    rows = [{'id': mkid('x'), 'a': NUM(5), 'b': ('str', 'm'), 'c': D.MARKER, 'r': ('ref', 'y', None)},
+            {'id': mkid('y'), 'a': NUM(6, 'kg'), 'b': ('str', 'z'), 'r': ('ref', 'x', None)}]
     maxlen = max(len(POOL['a']), n)
     for i in range(maxlen):
         row = {}
@@ -100,7 +101,8 @@ def atoms_all():
             A.append(('cmp', op, ['a'], LITS[lk]))
     A += [('has', ['r', 'a']), ('not', ['r', 'a']), ('has', ['r']), ('not', ['r']), ('has', ['r', 'r', 'a']),
           ('cmp', '==', ['r', 'a'], LITS['num']), ('cmp', '<', ['r', 'a'], LITS['qty']), ('cmp', '!=', ['r', 'b'], LITS['str']),
-          ('cmp', '==', ['r'], LITS['ref'])]
+          ('cmp', '==', ['r'], LITS['ref']), ('cmp', '==', ['r', 'r'], ('ref', 'y', None)), ('cmp', '!=', ['r', 'r'], ('ref', 'x', None)),
+          ('cmp', '==', ['r', 'r', 'a'], LITS['num']), ('has', ['r', 'r']), ('not', ['r', 'r', 'r', 'a'])]
     return A
 
 
